@@ -7,7 +7,7 @@ C13.b other nondeterminism sources (uuid, clocks, directory listings, id(), hash
 import ast
 
 from ..core.flow import call_name, calls_in
-from ..core.loader import AnalysisError, short, own_nodes, norm
+from ..core.loader import AnalysisError, short, own_nodes, norm, canon, function_locals
 from ..core.report import where
 from ..core.setorder import SetTypes, sites_in_function
 
@@ -28,32 +28,33 @@ ASSUMPTIONS = ["dict iteration is insertion-ordered (CPython >= 3.7), so only se
 
 ROOTS = ["gasol_asm.execute_gasol"]
 
-# Sites that the syntactic criterion cannot classify. key = (function qualname suffix, consumer text) -> (verdict, reason)
+# Sites that the syntactic criterion cannot classify. key = (function qualname, consumer text with the function's local names
+# canonicalised to L1, L2, ... in order of appearance — see core.loader.canon) -> (verdict, reason)
 TRIAGED = {
-    ("greedy.block_generation.SMSgreedy.target", "for w in needed_set"):
+    ("greedy.block_generation.SMSgreedy.target", "for L1 in L2"):
         ("insensitive", "body is `map[w] += needed_list(w, ...)`: one slot per element; needed_list only reads the maps it is given "
                         "(needed_set is read-only inside it)"),
-    ("smt_encoding.complete_encoding.synthesis_additional_constraints.each_function_is_used_at_most_once", "(<comp over positions>)"):
+    ("smt_encoding.complete_encoding.synthesis_additional_constraints.each_function_is_used_at_most_once", "(<comp over L1>)"):
         ("insensitive", "elements are ints (range positions): int hashes are seed independent, and the set is rebuilt identically each run"),
     ("smt_encoding.instructions.instruction_bounds_with_dependencies.InstructionBoundsWithDependencies.__init__",
-     "list(set((instruction.id for instruction in instructions if instruction.instruction_subset == InstructionSubset.store)).difference(dependendent_mem_ids))"):
+     "list(set((L1.id for L1 in instructions if L1.instruction_subset == InstructionSubset.store)).difference(L2))"):
         ("insensitive", "non_dependent_mem_ids is only iterated to give every member the same initial bound (initialize_bound_positions_for_ub)"),
     ("smt_encoding.json_with_dependencies.bounds_from_instructions",
-     "list(set((instruction.id for instruction in instructions if instruction.instruction_subset == InstructionSubset.store)).difference(dependendent_mem_ids))"):
+     "list(set((L1.id for L1 in instructions if L1.instruction_subset == InstructionSubset.store)).difference(L2))"):
         ("insensitive", "clone of the previous site; same consumer"),
     ("smt_encoding.instructions.instruction_bounds_with_dependencies.toposort_instr_dependencies",
-     "list(set((instr_id for instr_id in dependency_graph)).difference(set((instr_id for id_list in dependency_graph.values() for instr_id in id_list))))"):
+     "list(set((L1 for L1 in dependency_graph)).difference(set((L1 for L2 in dependency_graph.values() for L1 in L2))))"):
         ("insensitive", "order of the maximal elements only selects among topological orders; consumers generate_lower_bound_dict "
                         "(value per instruction depends only on its already-final predecessors) and update_with_tree_level (min/max) "
                         "give the same result for every topological order"),
     ("smt_encoding.instructions.instruction_dependencies.toposort_instr_dependencies",
-     "list(set((instr_id for instr_id in dependency_graph)).difference(set((instr_id for id_list in dependency_graph.values() for instr_id in id_list))))"):
+     "list(set((L1 for L1 in dependency_graph)).difference(set((L1 for L2 in dependency_graph.values() for L1 in L2))))"):
         ("insensitive", "clone; consumer hap_bef_rel computes a transitive closure, identical for every topological order"),
     ("smt_encoding.instructions.instruction_bounds_with_dependencies.update_with_tree_level",
-     "for prev_instr_id in set(dependent_instr_ids).difference(analyzed_instr_ids)"):
+     "for L1 in set(L2).difference(L3)"):
         ("insensitive", "body only calls update_current_index, a per-key min/max update"),
     ("smt_encoding.instructions.instruction_bounds_with_dependencies.number_instr_needed",
-     "for prev_instr_id in set(dependent_instr_ids).difference(analyzed_instr_ids)"):
+     "for L1 in set(L2).difference(L3)"):
         ("SENSITIVE", "body calls needed_instrs_from_id, which mutates the loop-carried dict repeated_instructions; the sum depends on "
                       "the visiting order (witnessed: min_length_bounds 5 vs 6 under different PYTHONHASHSEED)"),
 }
@@ -64,13 +65,21 @@ TRIAGED = {
 BNDS = "smt_encoding.instructions.instruction_bounds_with_dependencies"
 TRIAGE_PREMISES = {
     (f"{BNDS}.InstructionBoundsWithDependencies.__init__",
-     "list(set((instruction.id for instruction in instructions if instruction.instruction_subset == InstructionSubset.store)).difference(dependendent_mem_ids))"):
+     "list(set((L1.id for L1 in instructions if L1.instruction_subset == InstructionSubset.store)).difference(L2))"):
         [(f"{BNDS}.initialize_bound_positions_for_ub", "maximal_mem_ids")],
     ("smt_encoding.json_with_dependencies.bounds_from_instructions",
-     "list(set((instruction.id for instruction in instructions if instruction.instruction_subset == InstructionSubset.store)).difference(dependendent_mem_ids))"):
+     "list(set((L1.id for L1 in instructions if L1.instruction_subset == InstructionSubset.store)).difference(L2))"):
         [(f"{BNDS}.initialize_bound_positions_for_ub", "maximal_mem_ids")],
 }
 PER_KEY_UPDATERS = {"update_current_index"}
+# loops triaged because their body is one slot-per-element update  <table>[<loop var>] op= ...
+SLOT_PER_ELEMENT = {("greedy.block_generation.SMSgreedy.target", "for L1 in L2")}
+
+
+def _slot_per_element(loop):
+    lv = {x.id for x in ast.walk(loop.target) if isinstance(x, ast.Name)}
+    return len(loop.body) == 1 and isinstance(loop.body[0], ast.AugAssign) and isinstance(loop.body[0].target, ast.Subscript) \
+        and any(isinstance(x, ast.Name) and x.id in lv for x in ast.walk(loop.body[0].target.slice))
 
 
 def _per_key_minmax(ctx):
@@ -125,7 +134,7 @@ def rule_a(ctx, out):
         f = reach[q]
         n_funcs += 1
         for s in sites_in_function(f, st):
-            key = (f.qual, s["consumer"])
+            key = (f.qual, canon(s["consumer"], function_locals(f.node)))
             rec = {"function": f.qual, "consumer": short(s["node"], 100) if s["kind"] != "for" else s["consumer"], "auto": s["verdict"], "why": s["why"]}
             if s["verdict"] == "insensitive":
                 out.ok(rec)
@@ -142,6 +151,10 @@ def rule_a(ctx, out):
             else:
                 used_triage.add(key)
                 broken = None
+                if key in SLOT_PER_ELEMENT and not (isinstance(s["node"], ast.For) and _slot_per_element(s["node"])):
+                    out.bad(f"set-order:{f.qual.split('.', 1)[-1]}:{s['consumer'][:70]}",
+                            f"{s['consumer']} in {f.qual} iterates a set and its body is no longer a single slot-per-element update", where(f, s["node"]), rec)
+                    continue
                 for qual, param in TRIAGE_PREMISES.get(key, []):
                     holds, why = _premise_holds(ctx, qual, param)
                     if not holds:
